@@ -134,3 +134,12 @@ Example C06_nonvacuous :
     {| b_session := ex_user_tok; b_username := str "root"; b_password := []; b_old := []; b_new := str "n"; b_admin := false |}
     (ex_wo 1700000100 []) = false.
 Proof. vm_compute. repeat split; try reflexivity; discriminate. Qed.
+
+(* ---- the model's state space is the code's declared state ----
+   (theories/StateInst.v: package-level variables and struct fields listed by tools/facts on every
+   run; the models keep no state between operations other than these components) *)
+From Whawty Require StateInst.
+Theorem C06_agent_state_inventory : StateInst.agent_state_inventory.
+Proof. exact StateInst.agent_state_inventory_holds. Qed.
+Theorem C06_session_state_inventory : StateInst.session_state_inventory.
+Proof. exact StateInst.session_state_inventory_holds. Qed.
